@@ -29,7 +29,7 @@ TRUSTED = [
   'the tokenizer of this check (validated on every name by render(tokenise(s)) == s and against the Lean `render`)',
 ]
 ASSUMPTIONS = [
-  'every NamedObject is stored in exactly one slot (no aliasing of one object under two names); lists hold only NamedObjects or lists (a list whose first element is neither is not walked by the setattr hook)',
+  'every NamedObject is stored in exactly one slot (no aliasing of one object under two names); lists hold only NamedObjects, lists or None placeholders (None at any position, element 0 of the outermost list included since fix: c7238e1)',
   'slot / field names are Python identifiers that do not shadow attributes of Component / Interface / Signal; a component is never stored inside an interface (needed only for level = number of component prefixes)',
   'a repeated slot name is a FieldReassignError in the real code; the model reports the same error and otherwise keeps the first binding',
 ]
@@ -159,18 +159,17 @@ HOLE = ['hole']
 
 def punch_holes(rng, sv):
   """Replace elements of the (nested) list value by None placeholders: single holes at arbitrary
-  positions (leading / middle / trailing inside sub-lists), whole rows of None, a diagonal or a lower
-  triangle of a 2-D grid, rows replaced by None. The clean code accepts a None anywhere in a list
-  attribute except as element 0 of the attribute's own (outermost) list, where the hook does not walk
-  the list at all (candidate finding, see probe_mixed_list) -- that position is never punched."""
+  positions (leading / middle / trailing, also element 0 of the outermost list), whole rows of None,
+  leading rows replaced by None, a diagonal or a lower triangle of a 2-D grid. (Before fix: c7238e1 a
+  None as element 0 of the attribute's own list made the hook skip the whole list; see CORPUS.)"""
   mode = rng.random()
-  def lists_of(x, top, acc):
+  def lists_of(x, acc):
     if x[0] == 'many':
-      acc.append((x, top))
-      for y in x[1]: lists_of(y, False, acc)
+      acc.append(x)
+      for y in x[1]: lists_of(y, acc)
     return acc
-  ls = lists_of(sv, True, [])
-  rows = [l for l, top in ls if not top]
+  ls = lists_of(sv, [])
+  rows = ls[1:]
   if mode < 0.25 and rows:
     # crossbar: no self link -> diagonal holes; or upper triangle only
     tri = rng.random() < 0.5
@@ -181,17 +180,18 @@ def punch_holes(rng, sv):
   elif mode < 0.4 and rows:
     r = rng.choice(rows)
     for j in range(len(r[1])): r[1][j] = HOLE               # a whole row of None
-  elif mode < 0.5 and len(sv[1]) > 1:
-    sv[1][rng.randrange(1, len(sv[1]))] = HOLE              # a row / element of the outer list is None
+  elif mode < 0.55 and sv[1]:
+    if rng.random() < 0.5:
+      for j in range(rng.randint(1, len(sv[1]))): sv[1][j] = HOLE   # leading rows / elements of the outer list are None
+    else:
+      sv[1][rng.randrange(len(sv[1]))] = HOLE
   else:
-    for l, top in ls:
+    for l in ls:
       for j in range(len(l[1])):
-        if top and j == 0: continue
         if rng.random() < 0.3: l[1][j] = HOLE
   if rng.random() < 0.15:
-    l, top = rng.choice(ls)                                 # an extra None (also into an empty sub-list)
-    if not top: l[1].insert(rng.randint(0, len(l[1])), HOLE)
-    elif l[1]: l[1].insert(rng.randint(1, len(l[1])), HOLE)
+    l = rng.choice(ls)                                      # an extra None (also into an empty sub-list)
+    l[1].insert(rng.randint(0, len(l[1])), HOLE)
 
 def gen_case(rng, big=False):
   g = Gen(rng, big)
@@ -225,7 +225,8 @@ def inject_dup(rng, top):
   if n[0] == 'comp' and rng.random() < 0.4:
     n[1].insert(rng.randint(0, len(n[1])), [rng.choice(['clk', 'reset']), ['one', ['sig', 'in', ['bits', 1]]]])
   elif n[1]:
-    nm = rng.choice(n[1])[0].lstrip('_') or 'a'
+    hw = [x for x in n[1] if x[1][0] == 'one' or any(y[0] != 'hole' for y in x[1][1])] or [['a']]
+    nm = rng.choice(hw)[0].lstrip('_') or 'a'
     n[1].append([nm, ['one', ['sig', 'wire', ['bits', 4]]]])
     if all(x[0] != nm for x in n[1][:-1]): n[1].append([nm, ['one', ['sig', 'wire', ['bits', 4]]]])
   else:
@@ -676,6 +677,13 @@ def stats(ck, case, real):
   return has_list[0] or lazy > 0 or 'error' in real
 
 CORPUS = [
+  # fixed regression (fix: c7238e1): None as element 0 of the attribute's own list / leading rows of None; before the
+  # fix the hook did not walk such a list and the objects behind the None were collected without a name
+  {'desc': ['comp', [['x', ['many', [['hole'], ['one', ['sig', 'wire', ['bits', 4]]]]]],
+                     ['g', ['many', [['hole'], ['hole'], ['many', [['hole'], ['one', ['ifc', [['v', ['one', ['sig', 'in', ['bits', 2]]]]]]]]],
+                                     ['many', [['one', ['comp', [['p', ['many', [['hole'], ['one', ['mport', 'caller']]]]]]]], ['hole']]]]]],
+                     ['n', ['many', [['hole'], ['hole']]]]]],
+   'acc_construct': [[['a', 'x'], ['i', 1], ['s', 1, 3]]], 'acc_post': [[['a', 'g'], ['i', 2], ['i', 1], ['a', 'v'], ['i', 0]]], 'kind': 'ok'},
   # slice of slice of slice, int index, list of signals with slices, struct with list field and nested struct
   {'desc': ['comp', [['y', ['one', ['sig', 'wire', ['bits', 16]]]],
                      ['w', ['many', [['one', ['sig', 'in', ['bits', 8]]], ['one', ['sig', 'in', ['bits', 8]]]]]],
@@ -771,37 +779,16 @@ def shape_case(shape, variant):
     return ['many', [conv(y) for y in x[1]]]
   return {'desc': ['comp', [['x', conv(shape)]]], 'acc_construct': [], 'acc_post': [], 'kind': 'ok', 'bad_exprs': []}
 
-PROBE_SRC = '''from pymtl3 import *
-class C14ProbeTop( Component ):
-  def construct( s ):
-    s.x = [ None, Wire( Bits4 ) ]
-TOP = C14ProbeTop
-'''
-
-def probe_mixed_list(ck):
-  """Outside the generated space (ASSUMPTIONS): a list whose FIRST element is not a NamedObject / list is
-  not walked by the setattr hook, but `_collect_all_single` walks every list, so the Wire is collected
-  without a name. Enabled with C14_PROBE_MIXED=1 (reported to the maintainer of /verif as a candidate
-  finding; off by default because such lists are outside the property's quantifier as generated here)."""
-  path = os.path.join(ck.workdir, 'c14probe.py')
-  with open(path, 'w') as f: f.write(PROBE_SRC)
-  mod = load_module(path, 'c14probe')
-  top = mod.TOP(); top.elaborate()
-  case = {'probe': 'mixed-list', 'module': PROBE_SRC}
-  ck.count(case, True)
-  oracle(ck, case, top, top.get_all_object_filter(lambda x: True), 'probe: s.x = [ None, Wire(Bits4) ]')
-
 def run(ck):
   rng = ck.rng
   import gc
-  if os.environ.get('C14_PROBE_MIXED') == '1': probe_mixed_list(ck)
   nex = 0
   for n in range(1, (5 if ck.tier == 'quick' else 7) + 1):
     c = exhaustive_slice_case(n)
     ok, nd, real = one_case(ck, c); ck.count(c, stats(ck, c, real)); nex += 1
   for n in range(1, (5 if ck.tier == 'quick' else 6) + 1):
     for i, sh in enumerate(list_shapes(n)):
-      if sh[0] != 'many' or (sh[1] and sh[1][0][0] == 'hole'): continue   # element 0 of the outer list is never None
+      if sh[0] != 'many': continue
       c = shape_case(sh, i % 2)
       ok, nd, real = one_case(ck, c); ck.count(c, stats(ck, c, real)); nex += 1
   ck.extra_cov['exhaustive_part'] = (f'every slice / int index / slice-of-slice (valid and invalid bounds) of n-bit signals and struct '
@@ -831,10 +818,6 @@ def replay(ck, data):
     rep = ck.drv('hier').batch([leanio.line('hier', 'render', enc_toks(case[1]))])[0]
     print(f'model={rep}\nimpl =str {render(case[1])}')
     return 0 if rep == 'str ' + render(case[1]) else 1
-  if 'probe' in case:
-    probe_mixed_list(ck)
-    for v in ck.violations: print('VIOLATION', v.kind, v.detail)
-    return 1 if ck.violations else 0
   case.setdefault('bad_exprs', [])
   print('module written for the case:')
   print(open(write_module(ck.workdir, 'c14replay', case)).read())
